@@ -126,7 +126,7 @@ def canonical_json_bytes(obj: Any) -> bytes:
         ).encode("utf-8")
     except Exception:  # pragma: no cover - defensive
         # Last resort: not ideal for hashing, but better than failing
-        return repr(obj).encode("utf-8")
+        return _MEMORY_ADDRESS.sub("", repr(obj)).encode("utf-8")
 
 
 def _json_default(o: Any):
@@ -172,7 +172,7 @@ def serialize(obj: Any) -> bytes:
     try:
         return canonical_json_bytes(obj)
     except Exception:  # pragma: no cover - defensive
-        return repr(obj).encode("utf-8")
+        return _MEMORY_ADDRESS.sub("", repr(obj)).encode("utf-8")
 
 
 def sha256_bytes(data: bytes) -> str:
